@@ -102,16 +102,16 @@ def rand_wrap(rng, base, maxdepth=3):
 
 # ------------------------------------------------------------------ signatures
 _FN_CACHE = {}
+_KIND_NAME = {v: k for k, v in KINDS.items()}
+# how the callable is presented to the validator; every shape shows (through
+# inspect.signature with its default follow_wrapped=True) the parameter list [sig],
+# partial_kw shows one more keyword-only parameter with a default
+SHAPES = ["bare", "lambda", "wrapped", "wrapped2", "partial_pos", "partial_kw", "bound", "callable",
+          "static", "classbound"]
 
 
-def make_fn(sig):
-    """a real Python function with the given parameter list"""
-    if sig is None:
-        return None
-    key = tuple(tuple(p) for p in sig)
-    if key in _FN_CACHE:
-        return _FN_CACHE[key]
-    parts, seen_slash, seen_star = [], False, False
+def _params_src(sig):
+    parts, seen_star = [], False
     po = [p for p in sig if p[1] == "PO"]
     for i, (name, kind, dflt) in enumerate(sig):
         d = "=None" if dflt else ""
@@ -131,15 +131,79 @@ def make_fn(sig):
             parts.append(name + d)
         elif kind == "VK":
             parts.append("**" + name)
-    src = "def resolver(%s):\n    return None\n" % ", ".join(parts)
+    return ", ".join(parts)
+
+
+def sig_of(fn):
+    """the parameter list the (unchanged) validator sees: inspect.signature, following __wrapped__"""
+    return [[p.name, _KIND_NAME[p.kind], p.default is not inspect.Parameter.empty]
+            for p in inspect.signature(fn).parameters.values()]
+
+
+def _passthrough(fn):
+    import functools
+
+    @functools.wraps(fn)
+    def wrapper(*args, **kwargs):
+        return fn(*args, **kwargs)
+    return wrapper
+
+
+def shape_for(sig, seed):
+    """one shape per signature within a case (same signature = same function object)"""
+    if not seed or sig is None:
+        return "bare"
+    return SHAPES[(sum(ord(c) for c in repr(sig)) + seed) % len(SHAPES)]
+
+
+def make_fn(sig, shape="bare"):
+    """a real Python callable whose visible parameter list is [sig], presented as [shape]"""
+    if sig is None:
+        return None
+    key = (tuple(tuple(p) for p in sig), shape)
+    if key in _FN_CACHE:
+        return _FN_CACHE[key]
+    import functools
+    src_params = _params_src(sig)
     ns = {}
-    exec(src, ns)  # noqa: S102 - generated from a closed grammar
-    fn = ns["resolver"]
-    got = [[p.name, {v: k for k, v in KINDS.items()}[p.kind], p.default is not inspect.Parameter.empty]
-           for p in inspect.signature(fn).parameters.values()]
-    assert got == [list(p) for p in sig], (got, sig)
+    if shape in ("bare", "wrapped", "wrapped2"):
+        exec("def resolver(%s):\n    return None\n" % src_params, ns)  # noqa: S102 - closed grammar
+        fn = ns["resolver"]
+        if shape != "bare":
+            fn = _passthrough(fn)
+        if shape == "wrapped2":
+            fn = _passthrough(fn)
+    elif shape == "lambda":
+        fn = eval("lambda %s: None" % src_params, ns)  # noqa: S307 - closed grammar
+    elif shape == "partial_pos":
+        exec("def resolver(%s):\n    return None\n" % ", ".join(x for x in ["_b0", src_params] if x), ns)  # noqa: S102
+        fn = functools.partial(ns["resolver"], 0)
+    elif shape == "partial_kw":
+        vk = [p for p in sig if p[1] == "VK"]
+        exec("def resolver(%s):\n    return None\n" % _params_src(  # noqa: S102
+            [p for p in sig if p[1] != "VK"] + [["_k0", "KO", False]] + vk), ns)
+        fn = functools.partial(ns["resolver"], _k0=1)
+    elif shape in ("bound", "callable", "static", "classbound"):
+        deco = {"static": "    @staticmethod\n", "classbound": "    @classmethod\n"}.get(shape, "")
+        first = {"static": "", "classbound": "cls"}.get(shape, "self")
+        meth = "__call__" if shape == "callable" else "resolve"
+        exec("class Holder:\n%s    def %s(%s):\n        return None\n" % (
+            deco, meth, ", ".join(x for x in [first, src_params] if x)), ns)  # noqa: S102
+        holder = ns["Holder"]
+        fn = {"bound": lambda: holder().resolve, "callable": lambda: holder(),
+              "static": lambda: holder.resolve, "classbound": lambda: holder.resolve}[shape]()
+    else:
+        raise ValueError(shape)
+    got = sig_of(fn)
+    want = [list(p) for p in sig] if shape != "partial_kw" else (
+        [list(p) for p in sig if p[1] != "VK"] + [["_k0", "KO", True]] + [list(p) for p in sig if p[1] == "VK"])
+    assert got == want, (shape, got, sig)
     _FN_CACHE[key] = fn
     return fn
+
+
+def make_shaped(sig, seed):
+    return make_fn(sig, shape_for(sig, seed))
 
 
 def sig_valid_python(sig):
@@ -165,6 +229,7 @@ def sig_valid_python(sig):
 def build_code(spec):
     """py_gql Schema built through the Python constructors (lazy references)"""
     reg = dict(SPEC_SCALARS)
+    seed = spec.get("shape_seed", 0)      # how resolvers are presented (functools.wraps, partial, methods, ...)
 
     def ref(t):
         if t[0] == "N":
@@ -183,7 +248,7 @@ def build_code(spec):
 
     def mk_field(f):
         return S.Field(f["name"], ref(f["type"]), args=[mk_arg(a) for a in f.get("args", [])],
-                       deprecation_reason=f.get("depr"), resolver=make_fn(f.get("resolver")))
+                       deprecation_reason=f.get("depr"), resolver=make_shaped(f.get("resolver"), seed))
 
     def mk_input_field(f):
         kw = {}
@@ -201,7 +266,7 @@ def build_code(spec):
             reg[name] = S.ObjectType(
                 name, fields=(lambda td=td: [mk_field(f) for f in td["fields"]]),
                 interfaces=(lambda td=td: [reg[i] for i in td["interfaces"]]),
-                default_resolver=make_fn(td.get("default_resolver")))
+                default_resolver=make_shaped(td.get("default_resolver"), seed))
         elif k == "interface":
             reg[name] = S.InterfaceType(name, fields=(lambda td=td: [mk_field(f) for f in td["fields"]]))
         elif k == "union":
@@ -223,7 +288,7 @@ def build_code(spec):
         types=[reg[td["name"]] for td in spec["types"]],
     )
     if spec.get("default_resolver") is not None:
-        sch.default_resolver = make_fn(spec["default_resolver"])
+        sch.default_resolver = make_shaped(spec["default_resolver"], seed)
     return sch
 
 
